@@ -80,13 +80,32 @@ Definition add_scrub_fields (tm : tmap) (sc : sschema) (ss : list ssel) (t : str
   else if (if abstract && (is_frag || has_own_fields ss1) then has_direct ss1 "id" else contains ss1 "id") then (ss1, added1)
   else (id_helper :: ss1, added1 ++ ["id"]).
 
-(* addSelectionSetToSanitizedResult: a field whose response key (Alias) is already among the fields of s is dropped *)
+(* addSelectionSetToSanitizedResult: a field whose response key (Alias) is already among the fields of s is not added
+   again; since fix 360a3f6 what it selects is selected below the field that is there (before: dropped) *)
 Definition alias_of (s : ssel) : option string := match s with SanField a _ _ _ _ => Some a | SanFrag _ _ _ _ => None end.
-Definition add_to_result (s : list ssel) (new : list ssel) : list ssel :=
-  s ++ filter (fun x => match alias_of x with
-                        | None => true
-                        | Some a => negb (existsb (fun e => match alias_of e with Some a' => a' =? a | None => false end) s)
-                        end) new.
+Definition has_key (s : list ssel) (a : string) : bool :=
+  existsb (fun e => match alias_of e with Some a' => a' =? a | None => false end) s.
+(* the first field with response key a gets f applied to its selection *)
+Fixpoint update_first (a : string) (f : list ssel -> list ssel) (s : list ssel) : list ssel :=
+  match s with
+  | [] => []
+  | SanField a' n ty d sub :: r =>
+      if a' =? a then SanField a' n ty d (f sub) :: r else SanField a' n ty d sub :: update_first a f r
+  | x :: r => x :: update_first a f r
+  end.
+Fixpoint add_sel (x : ssel) (s : list ssel) {struct x} : list ssel :=
+  match x with
+  | SanFrag _ _ _ _ => s ++ [x]
+  | SanField a _ _ _ sub =>
+      if has_key s a then
+        match sub with
+        | [] => s
+        | _ => update_first a (fun sub' => (fix go (l : list ssel) (acc : list ssel) :=
+                                            match l with [] => acc | y :: r => go r (add_sel y acc) end) sub sub') s
+        end
+      else s ++ [x]
+  end.
+Definition add_to_result (s : list ssel) (new : list ssel) : list ssel := fold_left (fun acc x => add_sel x acc) new s.
 
 (* narrowSelectionSetToType: what of a selection set applies to the objects of one object type — a fragment on that
    type is unfolded, fragments on other object types are left out (those with directives, on abstract types or without
@@ -157,9 +176,9 @@ Definition unset_level (ss : list ssel) (ip : list string) (s : scrub) : scrub :
                | SanFrag _ _ _ _ => acc
                end) ss s.
 
-(* clientSelectedHelpers: the helper fields the client selects himself inside the fragments of a level (no alias, no
-   directives, fragments with directives not entered), each with the types of the objects it is selected for.
-   types = None: every type (a field on the level itself: the closing loop above handles it) *)
+(* clientSelectedHelpers: the helper fields the client selects himself in a selection set and inside its fragments (no
+   alias, no directives, fragments with directives not entered), each with the types of the objects it is selected
+   for; None: every type *)
 Definition narrow_types (sc : sschema) (types : option (list string)) (cond : string) : option (list string) :=
   if cond =? "" then types
   else
@@ -168,23 +187,36 @@ Definition narrow_types (sc : sschema) (types : option (list string)) (cond : st
     | None => Some matching
     | Some ts => Some (filter (fun t => smem t ts) matching)
     end.
-Fixpoint client_sel (sc : sschema) (types : option (list string)) (s : ssel) {struct s} : list (string * string) :=
+Definition hsel := (option string * string)%type.
+Fixpoint client_sel (sc : sschema) (types : option (list string)) (s : ssel) {struct s} : list hsel :=
   match s with
   | SanField a n _ d _ =>
       if (a =? n) && Nat.eqb d 0 && ((n =? "id") || (n =? "__typename"))
-      then match types with Some ts => map (fun t => (t, n)) ts | None => [] end
+      then match types with Some ts => map (fun t => (Some t, n)) ts | None => [(None, n)] end
       else []
   | SanFrag c _ d sub =>
       if Nat.eqb d 0
       then (fix go (l : list ssel) := match l with [] => [] | x :: r => client_sel sc (narrow_types sc types c) x ++ go r end) sub
       else []
   end.
-Definition client_selected (sc : sschema) (ss : list ssel) : list (string * string) := flat_map (client_sel sc None) ss.
-(* ScrubFields.UnsetForType *)
+Definition client_selected (sc : sschema) (ss : list ssel) : list hsel := flat_map (client_sel sc None) ss.
+(* ScrubFields.UnsetForType / Unset *)
 Definition sc_unset_type (s : scrub) (path : list string) (t field : string) : scrub :=
   filter (fun e => negb (path_eqb (fst (fst e)) path && (snd (fst e) =? t) && (snd e =? field))) s.
+Definition sc_unset_h (s : scrub) (path : list string) (h : hsel) : scrub :=
+  match fst h with Some t => sc_unset_type s path t (snd h) | None => sc_unset s path (snd h) end.
 Definition unset_selected (sc : sschema) (path : list string) (sub : list ssel) (s : scrub) : scrub :=
-  fold_left (fun acc h => sc_unset_type acc path (fst h) (snd h)) (client_selected sc sub) s.
+  fold_left (fun acc h => sc_unset_h acc path h) (client_selected sc sub) s.
+(* the second closing loop (since fix 360a3f6 at the end of the level, so that it sees what later selections of the same
+   response key register): below every field of the level, what the client selects himself stays *)
+Definition unset_children (sc : sschema) (ss : list ssel) (ip : list string) (s : scrub) : scrub :=
+  fold_left (fun acc x =>
+               match x with
+               | SanField a _ _ _ (y :: sub) => unset_selected sc (ip ++ [a]) (y :: sub) acc
+               | _ => acc
+               end) ss s.
+Definition closing (sc : sschema) (ss : list ssel) (ip : list string) (s : scrub) : scrub :=
+  unset_children sc ss ip (unset_level ss ip s).
 
 (* one selection of sanitizeSelectionSet's loop: (result so far, scrub fields so far) -> the same after it *)
 Fixpoint san_sel (tm : tmap) (sc : sschema) (ip : list string) (s : ssel) (acc : list ssel * scrub) {struct s} : list ssel * scrub :=
@@ -197,19 +229,17 @@ Fixpoint san_sel (tm : tmap) (sc : sschema) (ip : list string) (s : ssel) (acc :
           let '(child, sf) :=
             (fix go (l : list ssel) (acc' : list ssel * scrub) := match l with [] => acc' | x :: r => go r (san_sel tm sc (ip ++ [a]) x acc') end)
               sub ([], []) in
-          let sf := unset_level sub (ip ++ [a]) sf in
+          let sf := closing sc sub (ip ++ [a]) sf in
           let scr1 := sc_merge scr sf in
           let '(child', added) := add_scrub_fields tm sc child ty false in
           let scr2 := set_missing sc ip a ty child' scr1 added in
-          (* since the fix: what the client selects himself through a fragment stays for the objects it applies to,
-             whichever fragment added it as a helper too *)
-          (add_to_result result [SanField a n ty d child'], unset_selected sc (ip ++ [a]) sub scr2)
+          (add_to_result result [SanField a n ty d child'], scr2)
       end
   | SanFrag c o fd sub =>
       let '(child, sf) :=
         (fix go (l : list ssel) (acc' : list ssel * scrub) := match l with [] => acc' | x :: r => go r (san_sel tm sc ip x acc') end)
           sub ([], []) in
-      let sf := unset_level sub ip sf in
+      let sf := closing sc sub ip sf in
       let scr1 := sc_merge scr sf in
       let '(child', added) := add_scrub_fields tm sc child c true in
       (* helpers added for an abstract type condition are registered for every type an object can have (since the fix:
@@ -229,4 +259,4 @@ Fixpoint san_sel (tm : tmap) (sc : sschema) (ip : list string) (s : ssel) (acc :
 
 Definition sanitize (tm : tmap) (sc : sschema) (ss : list ssel) (ip : list string) : list ssel * scrub :=
   let '(result, scr) := fold_left (fun acc x => san_sel tm sc ip x acc) ss ([], []) in
-  (result, unset_level ss ip scr).
+  (result, closing sc ss ip scr).
